@@ -709,7 +709,7 @@ class Prettier:
 			フォーマット文字列
 		"""
 		pretty_patterns = ' '.join([cls._pretty_pattern_entry(pattern) for pattern in patterns.entries])
-		return cls._deco_repeat(pretty_patterns, patterns.rep)
+		return cls._deco_repeat(pretty_patterns, patterns.rep, grouped=len(patterns.entries) == 1)
 
 	@classmethod
 	def _pretty_patterns_or(cls, patterns: Patterns) -> str:
@@ -721,21 +721,22 @@ class Prettier:
 			フォーマット文字列
 		"""
 		pretty_patterns = ' | '.join([cls._pretty_pattern_entry(pattern) for pattern in patterns.entries])
-		return cls._deco_repeat(pretty_patterns, patterns.rep)
+		return cls._deco_repeat(pretty_patterns, patterns.rep, grouped=len(patterns.entries) == 1)
 
 	@classmethod
-	def _deco_repeat(cls, pretty_patterns: str, rep: Repeators) -> str:
+	def _deco_repeat(cls, pretty_patterns: str, rep: Repeators, grouped: bool = False) -> str:
 		"""パターングループのフォーマットにリピートを付与
 
 		Args:
 			pretty_patterns: フォーマット文字列
 			rep: リピート種別
+			grouped: True = 括弧で囲われた単一要素のグループ(リピートなしの`(expr)`) (default = False)
 		Returns:
 			付与後の文字列
 		"""
 		if rep == Repeators.NoRepeat:
-			# XXX ルール直下以外は括弧で囲った方が良い
-			return pretty_patterns
+			# リピートなしの`(expr)`は括弧を維持しないと、再解析時に別の構造(結合順・トークン化)になる
+			return f'({pretty_patterns})' if grouped else pretty_patterns
 		elif rep == Repeators.OneOrEmpty:
 			return f'[{pretty_patterns}]'
 		else:
